@@ -46,6 +46,7 @@ struct Ctx {
     r: StdRng,
     dir: PathBuf,
     nfile: u64,
+    pool: std::collections::HashMap<(String, u64), (Vec<u8>, RecordKind)>,
 }
 fn outcome<T, E>(r: &Result<Result<T, E>, String>) -> &'static str {
     match r {
@@ -492,6 +493,16 @@ const KINDS: [RecordKind; 8] = [
     RecordKind::Chunk, RecordKind::ChunkWithPayment, RecordKind::Transaction, RecordKind::TransactionWithPayment,
     RecordKind::Register, RecordKind::RegisterWithPayment, RecordKind::Scratchpad, RecordKind::ScratchpadWithPayment,
 ];
+/// valid records are expensive to make (BLS signatures): a pool of 8 per parser is reused
+fn pooled_record(cx: &mut Ctx, parser: &str, m: u64) -> (Vec<u8>, RecordKind) {
+    let key = (parser.to_string(), m % 8);
+    if let Some(x) = cx.pool.get(&key) {
+        return x.clone();
+    }
+    let x = full_record(&mut cx.r, parser, m % 8);
+    cx.pool.insert(key, x.clone());
+    x
+}
 fn full_record(r: &mut StdRng, parser: &str, m: u64) -> (Vec<u8>, RecordKind) {
     let sk = SecretKey::random();
     match parser {
@@ -609,29 +620,29 @@ fn run_case(cx: &mut Ctx, case: &Value, members: u64, full_cache: &[u8]) {
             }
         }
         "atto_from_str" => {
-            for m in 0..2.min(members) {
+            for m in 0..(members / 4).max(1) {
                 let s: String = word.iter().map(|g| atto_segment(&mut cx.r, g)).collect();
                 let c = Call { parser: &parser, word: &wordv, m, src: "tlc", fmt: false, pw: "na" };
                 do_atto(cx, &c, &s);
             }
         }
         "craft_multiaddr" => {
-            for m in 0..2.min(members) {
+            for m in 0..(members / 4).max(1) {
                 let s: String = word.iter().map(|g| maddr_segment(&mut cx.r, g)).collect();
                 let c = Call { parser: &parser, word: &wordv, m, src: "tlc", fmt: false, pw: "na" };
                 do_craft(cx, &c, &s, m % 2 == 1);
             }
         }
         "cache_load" => {
-            for m in 0..2.min(members) {
+            for m in 0..(members / 4).max(2) {
                 let b: Vec<u8> = word.iter().flat_map(|g| file_segment(&mut cx.r, g, full_cache)).collect();
                 let c = Call { parser: &parser, word: &wordv, m, src: "tlc", fmt, pw: "na" };
                 // member 0 with the default address limit (round trip comparable), member 1 with limit 1 (forces the sort)
-                do_cache_load(cx, &c, &b, if m == 0 { 6 } else { 1 });
+                do_cache_load(cx, &c, &b, if m % 2 == 0 { 6 } else { 1 });
             }
         }
         "registry_load" | "registry_from_json" => {
-            for m in 0..2.min(members) {
+            for m in 0..(members / 4).max(1) {
                 let reg = sample_registry(&mut cx.r, &cx.dir.join("reg.json"), m + word.len() as u64);
                 let full = serde_json::to_string(&reg).expect("registry json").into_bytes();
                 let b: Vec<u8> = word.iter().flat_map(|g| file_segment(&mut cx.r, g, &full)).collect();
@@ -640,8 +651,8 @@ fn run_case(cx: &mut Ctx, case: &Value, members: u64, full_cache: &[u8]) {
             }
         }
         "header_from_record" | "record_chunk" | "record_scratchpad" | "record_register" | "record_transaction" => {
-            for m in 0..4.min(members) {
-                let (full, kind) = full_record(&mut cx.r, &parser, m);
+            for m in 0..(members / 2).max(1) {
+                let (full, kind) = pooled_record(cx, &parser, m);
                 let b: Vec<u8> = word.iter().flat_map(|g| rec_segment(&mut cx.r, g, &full)).collect();
                 let c = Call { parser: &parser, word: &wordv, m, src: "tlc", fmt, pw: "na" };
                 do_record(cx, &c, &b, kind);
@@ -757,7 +768,7 @@ fn main() {
     let seed = vtrace::seed_from_env();
     let n_rand: usize = arg("--random").and_then(|s| s.parse().ok()).unwrap_or(200);
     let members: u64 = arg("--members").and_then(|s| s.parse().ok()).unwrap_or(8);
-    let mut cx = Ctx { t: Trace::create(&out), r: rng(seed), dir: dir.clone(), nfile: 0 };
+    let mut cx = Ctx { t: Trace::create(&out), r: rng(seed), dir: dir.clone(), nfile: 0, pool: Default::default() };
     let full_cache = cache_full(&mut cx, 3);
     let mut ncases = 0u64;
     if let Some(cases) = arg("--cases") {
